@@ -287,10 +287,13 @@ class PyFat(object):
             return self.bpb_header["BPB_FATSz16"]
 
         try:
-            return self.bpb_header["BPB_FATSz32"]
+            fat_size = self.bpb_header["BPB_FATSz32"]
         except KeyError:
+            fat_size = 0
+        if fat_size == 0:
             raise PyFATException("Invalid FAT size of 0 detected in header, "
                                  "cannot continue")
+        return fat_size
 
     @_init_check
     def _parse_fat(self):
@@ -702,6 +705,10 @@ class PyFat(object):
             self.__seek(address)
             lfn_dir_data = self.__fp.read(dir_hdr_sz)
 
+        if len(lfn_dir_data) != dir_hdr_sz:
+            raise PyFATException("Unexpected end of device while reading "
+                                 "a directory entry", errno=errno.EIO)
+
         lfn_hdr_layout = FATLongDirectoryEntry.FAT_LONG_DIRECTORY_LAYOUT
         lfn_dir_hdr = struct.unpack(lfn_hdr_layout, lfn_dir_data)
         lfn_dir_hdr = dict(zip(FATLongDirectoryEntry.FAT_LONG_DIRECTORY_VARS,
@@ -715,6 +722,10 @@ class PyFat(object):
             self.__seek(address)
             dir_hdr_size = FATDirectoryEntry.FAT_DIRECTORY_HEADER_SIZE
             dir_data = self.__fp.read(dir_hdr_size)
+
+        if len(dir_data) != dir_hdr_size:
+            raise PyFATException("Unexpected end of device while reading "
+                                 "a directory entry", errno=errno.EIO)
 
         dir_hdr = struct.unpack(FATDirectoryEntry.FAT_DIRECTORY_LAYOUT,
                                 dir_data)
@@ -993,8 +1004,12 @@ class PyFat(object):
         # Check signature
         with self.__lock:
             self.__seek(510)
-            signature = struct.unpack("<H", self.__fp.read(2))[0]
+            signature = self.__fp.read(2)
 
+        if len(signature) != 2:
+            raise PyFATException("Unexpected end of device while reading "
+                                 "the boot sector signature", errno=errno.EIO)
+        signature = struct.unpack("<H", signature)[0]
         if signature != 0xAA55:
             raise PyFATException(f"Invalid signature: \'{hex(signature)}\'.")
 
